@@ -10,6 +10,7 @@ import (
 func collectMoreConstants() {
 	addN("cluster_noLeader", cluster.VerifNoLeader, "cluster.noLeader")
 	addN("table_MaxValueLen", table.MaxValueLen, "table.MaxValueLen")
+	addN("table_tableIDsRangeStart", table.VerifTableIDsRangeStart, "table.tableIDsRangeStart")
 	addN("server_DefaultMaxGRPCSize", regattaserver.DefaultMaxGRPCSize, "regattaserver.DefaultMaxGRPCSize")
 	addN("kv_ResultCodeFailure", kv.ResultCodeFailure, "kv.ResultCodeFailure")
 	addN("kv_ResultCodeSuccess", kv.ResultCodeSuccess, "kv.ResultCodeSuccess")
